@@ -57,9 +57,9 @@ func nsAlphabet() []fsx.Op {
 		fsx.Op{K: "SETATTR", H: "root/a", Size: 5000},
 		fsx.Op{K: "SETATTR", H: "root/a", Size: 4500}, // together with 5000: shrink and growth inside one block
 		fsx.Op{K: "SETATTR", H: "root/a", NoSize: true, Mtime: 12345, Atime: 678},
-		fsx.Op{K: "SETATTR", H: "root/a", NoSize: true, Mtime: 777},  // mtime alone
-		fsx.Op{K: "SETATTR", H: "root/d", NoSize: true, Atime: 888},  // atime alone, on a directory
-		fsx.Op{K: "SETATTR", H: "root/a", Size: 200, Mtime: 999},     // size and mtime together
+		fsx.Op{K: "SETATTR", H: "root/a", NoSize: true, Mtime: 777}, // mtime alone
+		fsx.Op{K: "SETATTR", H: "root/d", NoSize: true, Atime: 888}, // atime alone, on a directory
+		fsx.Op{K: "SETATTR", H: "root/a", Size: 200, Mtime: 999},    // size and mtime together
 		fsx.Op{K: "RESTART"},
 		fsx.Op{K: "WRITE", H: "dead:root/a", Off: 0, Cnt: 10, Pat: 0x44, Stable: 2},
 		fsx.Op{K: "MKNOD", H: "root", N: "n"},
